@@ -23,7 +23,7 @@ theorem C17_recover (E : Env) (orig : Tree) (scraped : List Bytes)
       match lookup orig p with
       | some f => if f.content ∈ scraped then some { path := p, content := f.content, mtime := f.mtime } else none
       | none => none := by
-  sorry
+  exact scrapeOutput_spec E orig scraped hpaths hdistinct hcoll p
 
 /-- When every recorded content is present, the output tree equals the original tree. -/
 theorem C17_complete (E : Env) (orig : Tree) (scraped : List Bytes)
@@ -32,12 +32,19 @@ theorem C17_complete (E : Env) (orig : Tree) (scraped : List Bytes)
     (hall : ∀ f ∈ orig, f.content ∈ scraped) (p : String) :
     scrapeOutput E (genDb E orig) scraped p =
       (lookup orig p).map (fun f => { path := f.path, content := f.content, mtime := f.mtime }) := by
-  sorry
+  rw [scrapeOutput_spec E orig scraped hpaths hdistinct hcoll p]
+  cases hl : lookup orig p with
+  | none => rfl
+  | some f =>
+    obtain ⟨hf, hp⟩ := lookup_some hl
+    simp [hall f hf, hp]
 
 /-- Unknown or damaged files create nothing. -/
 theorem C17_unknown_ignored (E : Env) (orig : Tree) (scraped : List Bytes) (c : Bytes)
     (hcoll : NoCollision E (orig.map (·.content) ++ c :: scraped)) (hc : c ∉ orig.map (·.content)) :
     scrapeWrites E (genDb E orig) (c :: scraped) = scrapeWrites E (genDb E orig) scraped := by
-  sorry
+  refine scrapeWrites_cons_unknown E orig scraped c (fun f hf e => ?_) hc
+  exact hcoll _ (List.mem_append_left _ (List.mem_map_of_mem hf)) _
+    (List.mem_append_right _ List.mem_cons_self) (Or.inl e)
 
 end Pff.Rfigc
